@@ -211,6 +211,9 @@ theorem linspace_f_den (start stop : F64) (num : Nat) (ep : Bool) (cs : List Nat
     rw [(linspace_any_arith_den _ _ _ _ _ _ _ _ _ _ cs').1, (linspace_any_arith_den _ _ _ _ _ _ _ _ _ _ cs).1, h]
   · exact fdivTotal_ofInt _ _ (linspaceDiv_ne_zero num ep)
 
+example : (linspaceValuesF ⟨0, 0⟩ ⟨1, 0⟩ 5 true [2, 3]).map (fun b => b.map SoftFloat.normalize)
+    = [[⟨0, 0⟩, ⟨1, -2⟩], [⟨1, -1⟩, ⟨3, -2⟩, ⟨1, 0⟩]] := by decide
+
 /-- the pinned endpoint is the value the formula gives in exact arithmetic: `start + (num-1)*step = stop` -/
 theorem linspace_endpoint (start stop : Int) (num : Nat) :
     start * ((num - 1 : Nat) : Int) + ((num - 1 : Nat) : Int) * (stop - start) = stop * ((num - 1 : Nat) : Int) := by
@@ -261,6 +264,8 @@ theorem diag_den {α} [Inhabited α] (zero : α) (cs : List Nat) (xs : List α) 
       intro hrc; subst hrc
       rw [h1] at h2; injection h2 with h2; injection h2 with h3 _; exact hb h3
     rw [if_neg this]
+
+example : diagDen (0 : Int) [1, 2] [7, 8, 9] 1 1 = some 8 ∧ diagDen (0 : Int) [1, 2] [7, 8, 9] 0 2 = some 0 := by decide
 
 /-- **diagonal_den** (2-d, `axis1 = 0`, `axis2 = 1`): for positive row/column chunks and any offset `k`, the loop that
     follows the k-diagonal through the blocks terminates, every task's declared chunk length is what
@@ -399,6 +404,8 @@ theorem diagonal_nd_tasks (chunks : List (List Nat)) (a1 a2 : Nat) (segs : List 
     have : a2 ≠ a1 := by omega
     simp [this]
 
+example : ([1] : List Nat) ∈ blockProduct ((popAxes [[1, 1], [2, 1], [3, 1]] 0 2).map List.length) := by decide
+
 /-- the axis normalisation: both axes are reduced modulo `ndim` (negative axes count from the end), they are distinct and
     inside the array, and swapping them negates the offset -/
 theorem normAxes_spec {ndim : Nat} {offset ax1 ax2 : Int} {a1 a2 : Nat} {k : Int}
@@ -470,6 +477,8 @@ example : (List.range 4).map (fun r => (List.range 4).map (fun c => diagKDen (0 
 /-- **diag_2d_fast_den** (`diag(v)`, 2-d `v`, `k = 0`, equal row and column chunks): output position `p` reads `v[p, p]` -/
 theorem diag_2d_fast_den (cs : List Nat) (p : Nat) (hp : p < sum cs) : diag2dFastRead cs p = some (p, p) :=
   diag2dFast_den cs p hp
+
+example : diag2dFastRead [2, 1] 2 = some (2, 2) := by decide
 
 /-! ### `meshgrid`, `indices`, `fromfunction` (Model/CreationGrid.lean) -/
 
@@ -555,5 +564,7 @@ theorem chunks_sum_shape {top shape limit autoRes r} (h : Chunks.normalize top s
         | some a => exact finalize_dims h (hauto a rfl).1 hne (hauto a rfl).2
       · exact finalize_dims h hl hne (preNormalize_nonneg h1)
   exact ⟨H.length, fun i h1 h2 => (H.get i h1 h2).2.2⟩
+
+example : Chunks.normalize (.seq [.int 2, .int 2]) [5, 6] none none = .ok [[2, 2, 1], [2, 2, 2]] := by rfl
 
 end Dask.C34
